@@ -717,7 +717,7 @@ class HState:
         unseen = ev.get("unseen", True)
         folder = "inbox" if canon_name(name) == "INBOX" else name
         for i in range(n):
-            cid = f"d{self.step}x{i}"
+            cid = ev["cids"][i] if ev.get("cids") else f"d{self.step}x{i}"
             idn = 5000 + self.step * 10 + i
             self.w.deliver(folder, msgs.make(cid, crlf=False), unseen=unseen, mtime=msgs.idate_epoch(idn))
             self.model.deliver(name, cid, unseen, msgs.idate_epoch(idn))
